@@ -15,8 +15,39 @@ positions 0, 1, 2, 8 are overwritten by `Encrypt` and do not influence the outpu
 def recoverRnd (secret chal out : Bytes) : Bytes :=
   (List.range 23).map fun i => out.getD i 0 ^^^ secret.getD (i % 6) 0 ^^^ chal.getD (i % 8) 0
 
+/-- does the key setup reach `shuffle`'s 12th pass (eleven rejected draws in a row) with a raw draw EQUAL to the limit?
+(the SDK folds it to 0 there; a rewrite that tests `u <= limit` first keeps it) — used to find corpus cases -/
+def cornerLoop (cards : Crypt.Cards) (key : Crypt.Key) (limit mask : UInt8) : Nat → Nat → UInt8 → UInt8 → Bool × UInt8 × UInt8 × UInt8
+  | 0, _, rsum, keypos => (false, 0, rsum, keypos)
+  | fuel + 1, retries, rsum, keypos =>
+    let raw := Crypt.shuffleIter cards key limit mask 1 rsum keypos        -- retries = 1: never reduced
+    let r := Crypt.shuffleIter cards key limit mask (retries + 1) rsum keypos
+    let hit := retries + 1 ≥ 12 && raw.1 == limit
+    if r.1 ≤ limit then (hit, r.1, r.2.1, r.2.2)
+    else
+      let rest := cornerLoop cards key limit mask fuel (retries + 1) r.2.1 r.2.2
+      (hit || rest.1, rest.2.1, rest.2.2.1, rest.2.2.2)
+
+def cornerInit (key : Crypt.Key) : Nat → Crypt.Cards → UInt8 → UInt8 → Bool
+  | 0, _, _, _ => false
+  | n + 1, cards, rsum, keypos =>
+    let limit := UInt8.ofNat n
+    if limit = 0 then false else
+    let (hit, toswap, rsum, keypos) := cornerLoop cards key limit (Crypt.goMask limit) 13 0 rsum keypos
+    let i := UInt8.ofNat n
+    let ci := Crypt.cget cards i
+    let ct := Crypt.cget cards toswap
+    hit || cornerInit key n (Crypt.cset (Crypt.cset cards i ct) toswap ci) rsum keypos
+
 def handle (args out : List String) : Verdict :=
-  match args, out with
+  match (match args with | "encs" :: _ :: rest => "enc" :: rest | a => a), out with
+  | ["encscan", _, s, c, _], [o] =>
+    (match hex? s, hex? c, hex? o with
+     | some s, some c, some o =>
+       (match toVec? 6 s, toVec? 8 c, toVec? 23 (recoverRnd s c o) with
+        | some sv, some cv, some rv => if cornerInit (Crypt.cryptKey sv cv rv) 256 Crypt.identityCards 0 0 then .disagreeHolds "corner" else .agree
+        | _, _, _ => .bad "lengths")
+     | _, _, _ => .bad "hex")
   | ["enc", s, c, p], [o] =>
     match hex? s, hex? c, hex? p, hex? o with
     | some s, some c, some p, some o =>
